@@ -91,7 +91,7 @@ def disconnect (mx : Bool) (u v : K) : Prog K E (Res E) :=
 
 /-- first loop of `isolate`: `next()` (read guard on `u`), then a write guard on the neighbour -/
 def isoOut (u : K) : Nat → Nat → Prog K E Bool → Prog K E Bool
-  | 0, _, k => k
+  | 0, pos, k => (iterNext u (·.out) pos).bind fun _ => k   -- the `next()` call that returns `None` and ends the loop
   | fuel + 1, pos, k =>
     (iterNext u (·.out) pos).bind fun x =>
       match x with
@@ -103,7 +103,7 @@ def isoOut (u : K) : Nat → Nat → Prog K E Bool → Prog K E Bool
           | some (_, inn') => .write (fun s => s.set v { s.get v with inn := inn' }) (.rel (.node v) (isoOut u fuel (pos + 1) k)))
 
 def isoIn (u : K) : Nat → Nat → Prog K E Bool → Prog K E Bool
-  | 0, _, k => k
+  | 0, pos, k => (iterNext u (·.inn) pos).bind fun _ => k
   | fuel + 1, pos, k =>
     (iterNext u (·.inn) pos).bind fun x =>
       match x with
@@ -161,7 +161,7 @@ def disconnect (mx : Bool) (u v : K) : Prog K E (Res E) :=
 /-- the single loop of `isolate`: `remove_inbound` under one write guard; if that fails a second write
     guard for `remove_outbound` (the first guard is a temporary of the `if` condition) -/
 def isoLoop (u : K) : Nat → Nat → Prog K E Bool → Prog K E Bool
-  | 0, _, k => k
+  | 0, pos, k => (iterNext u (fun a => a.out ++ a.inn) pos).bind fun _ => k
   | fuel + 1, pos, k =>
     (iterNext u (fun a => a.out ++ a.inn) pos).bind fun x =>
       match x with
